@@ -116,6 +116,7 @@ struct Log {
     snapshot: Option<Vec<u8>>,
     last_pending_waker: Option<u8>,
     receiver_gone: bool,
+    lost_wake: Option<u8>,
 }
 
 trait WorldDyn {
@@ -162,6 +163,25 @@ impl<S: Snd, R: Rcv> World<S, R> {
 
     /// Performs one endpoint operation if it is applicable right now. Returns whether it ran.
     fn perform(&self, act: Act) -> bool {
+        // wake obligation (C05 guarantee carried over): the receiver's most recent poll returned
+        // Pending with waker w and the receiver is idle; a send / sender drop that completes now
+        // must wake w
+        let obligation = match act {
+            Act::Send | Act::DropSender if self.sender.borrow().is_some() && !self.receiver_busy.get() && self.receiver.borrow().is_some() => {
+                self.log.borrow().last_pending_waker.map(|w| (w, self.ledger.wakes[usize::from(w)].load(Ordering::Relaxed)))
+            }
+            _ => None,
+        };
+        let ran = self.perform_inner(act);
+        if let Some((w, before)) = obligation {
+            if ran && self.ledger.wakes[usize::from(w)].load(Ordering::Relaxed) == before {
+                self.log.borrow_mut().lost_wake = Some(w);
+            }
+        }
+        ran
+    }
+
+    fn perform_inner(&self, act: Act) -> bool {
         let ran = match act {
             Act::Nothing => false,
             Act::Send => {
@@ -493,6 +513,9 @@ fn check(case: &Case, ctx: &mut Ctx) -> Verdict {
     }
     if clones != consumed {
         return Err(f("waker/clone-not-dropped-exactly-once", format!("{clones} waker clones made, {consumed} woken or dropped once both endpoints are gone")));
+    }
+    if let Some(w) = log.lost_wake {
+        return Err(f("wake/lost", format!("the receiver's most recent poll returned Pending with waker {w}; a send / sender drop completed afterwards without invoking that waker")));
     }
     // storage
     if log.releases != 1 {
